@@ -132,6 +132,67 @@ def uniqueness_obligations(C, R):
             "scalars and object/interface types are collected in separate maps and never compared: `scalar A  type A { .. }` is accepted")
 
 
+def origin_order_guard(C, R):
+    """G-ORIGIN-ORDER: get_field_origins processes a type only after the types it waits for, and then indexes `field_origins`
+    with every implemented type it does not skip. The set it *waits for* (the filter that builds `required_resolutions`) and
+    the set it *does not skip* (the let-else in the processing loop) must be selected by the same predicate on the implemented
+    name - today: `is defined in vertex_types`, nothing else. A predicate that is narrower on one side (e.g. `is an interface`)
+    lets a type be processed before a type it then looks up: `no entry found for key` on invalid schemas."""
+    f = C.fn(S + "get_field_origins")
+    if f is None:
+        R.fail("r2", "anchor:get_field_origins", "-", "get_field_origins not found")
+        return
+
+    def predicate_tokens(region):
+        toks = set()
+        for x in walk(region):
+            if x.get("k") == "mcall" and ekey(x["recv"]).split(".")[-1] == "vertex_types" and x.get("name") in ("contains_key", "get"):
+                toks.add("defined")
+            elif x.get("k") == "mcall" and x.get("name") in ("is_some_and", "is_some", "is_none", "as_ref", "iter", "map", "filter", "collect", "node"):
+                continue
+            elif x.get("k") in ("pvariant",) or (x.get("k") == "match" and x.get("src") != "TryDesugar"):
+                pass
+        for x in walk(region):
+            if x.get("k") == "match" or x.get("k") == "letx" or x.get("k") == "let":
+                pats = []
+                if x.get("k") == "match":
+                    pats = [a["pat"] for a in x["arms"]]
+                elif "pat" in x:
+                    pats = [x["pat"]]
+                for p in pats:
+                    stack = [p]
+                    while stack:
+                        q = stack.pop()
+                        if not isinstance(q, dict):
+                            continue
+                        if q.get("k") in ("pvariant", "pstruct") and (q.get("adt") or "").endswith("TypeKind"):
+                            toks.add("kind:%s" % q.get("variant"))
+                        for key in ("sub", "alts"):
+                            v = q.get(key)
+                            if isinstance(v, list):
+                                stack.extend(v)
+                            elif isinstance(v, dict):
+                                stack.append(v)
+                        for fl in q.get("fields", []) or []:
+                            stack.append(fl.get("pat"))
+        return toks
+    waits = None
+    for n in walk(f["body"]):
+        if n.get("k") == "mcall" and n.get("name") == "filter" and n.get("args") and strip(n["args"][0]).get("k") == "closure":
+            clo = strip(n["args"][0])
+            if any(ekey(x.get("recv", {})).split(".")[-1] == "vertex_types" for x in walk(clo) if x.get("k") == "mcall"):
+                waits = predicate_tokens(clo["body"])
+    skips = None
+    for n in walk(f["body"]):
+        if n.get("k") == "let" and "els" in n and any(x.get("k") == "continue" for x in walk(n["els"])) and \
+                any(ekey(x.get("recv", {})).split(".")[-1] == "vertex_types" for x in walk(n["init"]) if x.get("k") == "mcall"):
+            skips = predicate_tokens(n["init"]) | predicate_tokens({"k": "let", "pat": n["pat"]})
+    R.check(waits is not None and skips is not None and waits == skips, "r2", "G-ORIGIN-ORDER", C.loc(f["sp"]),
+            "get_field_origins waits for implemented names selected by %s but looks up the origins of names selected by %s: a type can be "
+            "processed before a type whose field origins it then indexes (panic on invalid schemas instead of a typed error)"
+            % (sorted(waits) if waits is not None else "?", sorted(skips) if skips is not None else "?"))
+
+
 def run(ctx, R):
     C = ctx.core
     R.rule("r1", "reachable panic-capable constructs = audited set + listed known findings")
@@ -173,6 +234,7 @@ def run(ctx, R):
     R.check(ok_tail, "r2", "ok-iff-no-errors", C.loc(f["sp"]), "Schema::new must end with `if errors.is_empty() { Ok(..) } else { Err(..) }`")
     early_exits(C, R)
     uniqueness_obligations(C, R)
+    origin_order_guard(C, R)
     # every error variant constructed somewhere in the schema module
     adt = C.adt_by_path.get(S + "error::InvalidSchemaError")
     if adt is None:
